@@ -288,6 +288,15 @@ func (w *c6w) rw(e ast.Expr) ast.Expr {
 	case *ast.CallExpr:
 		fn := selName(x.Fun)
 		switch {
+		case (fn == "min" || fn == "max") && len(x.Args) == 2:
+			ty := w.typeOf(x.Args[0])
+			if ty == nil {
+				ty = w.typeOf(x.Args[1])
+			}
+			if ty == nil {
+				ty = types.Typ[types.Int]
+			}
+			return w.fake("(Z."+fn+" "+w.ex(x.Args[0])+" "+w.ex(x.Args[1])+")", e, ty)
 		case fn == "len" && len(x.Args) == 1:
 			return w.fake("(zlen "+w.lex(x.Args[0])+")", e, types.Typ[types.Int])
 		case fn == "cap" && len(x.Args) == 1:
@@ -449,6 +458,8 @@ func (w *c6w) ioOf(s ast.Stmt) *c6io {
 		io.kind = "readByte"
 	case fn == "io.ReadFull" && !w.write:
 		io.kind = "readFull"
+	case fn == "readBytes" && !w.write:
+		io.kind = "readBytes"
 	default:
 		sel, ok := call.Fun.(*ast.SelectorExpr)
 		if !ok {
@@ -483,7 +494,7 @@ func (w *c6w) hasIO(n ast.Node) bool {
 			found = true
 		case *ast.CallExpr:
 			fn := selName(x.Fun)
-			if fn == "w.Write" || fn == "readByte" || fn == "io.ReadFull" || fn == "make" || fn == "io.ReadAll" {
+			if fn == "w.Write" || fn == "readByte" || fn == "io.ReadFull" || fn == "make" || fn == "io.ReadAll" || fn == "readBytes" {
 				found = true
 			}
 			if sel, ok := x.Fun.(*ast.SelectorExpr); ok {
@@ -694,6 +705,24 @@ func (w *c6w) emitIO(s ast.Stmt, io *c6io, rest func() string) string {
 		if ns[0] != "_" {
 			fmt.Fprintf(&b, "let %s := %s in\n  ", w.bind(s, ns[0], io.tok), l)
 		}
+		if ns[1] != "_" {
+			fmt.Fprintf(&b, "let %s := 0%%N in\n  ", w.bind(s, ns[1], io.tok))
+		}
+		return b.String() + rest() + ")"
+	case "readBytes":
+		// x, err := readBytes(r, n): exactly n bytes in order, read in bounded steps (the helper's own skeleton,
+		// growth rule and its equivalence with one ReadFull of n bytes are in Proofs/C06_skel_rest.v); a negative
+		// n panics in the helper's make
+		ns := names(2)
+		if ns == nil || len(io.call.Args) != 2 || selName(io.call.Args[0]) != "r" || ns[0] == "_" {
+			w.fail(s, "unsupported readBytes call")
+		}
+		markErr(ns[1])
+		l, d := t.fresh("rl"), t.fresh("data")
+		var b bytes.Buffer
+		fmt.Fprintf(&b, "let %s := %s in\n  if (%s <? 0) then Crash crash_make else\n  ReadFull (Z.to_N %s) (fun %s : list N =>\n  ", l, w.ex(io.call.Args[1]), l, l, d)
+		w.goTy[ns[0]] = "list Z"
+		fmt.Fprintf(&b, "let %s := map byte_in %s in\n  ", w.bind(s, ns[0], io.tok), d)
 		if ns[1] != "_" {
 			fmt.Fprintf(&b, "let %s := 0%%N in\n  ", w.bind(s, ns[1], io.tok))
 		}
@@ -994,7 +1023,12 @@ func (w *c6w) stmts(list []ast.Stmt, fall func() string) string {
 			// s := String(bs) and other list-valued assignments to the destination
 			if id, ok := w.deref(x.Lhs[0]).(*ast.Ident); ok && w.isListVar(id.Name) && x.Tok == token.ASSIGN {
 				v := w.lex(x.Rhs[0])
-				return fmt.Sprintf("let %s := %s in\n  ", w.asg(s, id.Name), v) + next()
+				pre := fmt.Sprintf("let %s := %s in\n  ", w.asg(s, id.Name), v)
+				if w.goTy[id.Name+"_spare"] != "" {
+					// another slice is stored in the destination: nothing of the old backing array is left
+					pre += fmt.Sprintf("let %s := (@nil Z) in\n  ", w.asg(s, id.Name+"_spare"))
+				}
+				return pre + next()
 			}
 			if id, ok := x.Lhs[0].(*ast.Ident); ok && x.Tok == token.DEFINE {
 				if c, ok := x.Rhs[0].(*ast.CallExpr); ok {
@@ -1102,6 +1136,30 @@ func (w *c6w) sliceAssign(x *ast.AssignStmt, next func() string) string {
 		}
 		return b.String() + next()
 	}
+	// *b = append(*b, make([]T, k)...): k zero elements after the visible part (taken from the spare capacity or
+	// from a new backing array: zero either way is NOT assumed - the spare part is dropped, the new elements are 0)
+	if call, ok := x.Rhs[0].(*ast.CallExpr); ok && selName(call.Fun) == "append" && x.Tok == token.ASSIGN {
+		if w.write || len(call.Args) != 2 || call.Ellipsis == token.NoPos {
+			w.fail(x, "unsupported append")
+		}
+		src, ok := w.deref(call.Args[0]).(*ast.Ident)
+		mk, ok2 := call.Args[1].(*ast.CallExpr)
+		if !ok || !ok2 || src.Name != target.Name || selName(mk.Fun) != "make" || len(mk.Args) != 2 || w.goTy[target.Name+"_spare"] == "" {
+			w.fail(x, "unsupported append (only x = append(x, make([]T, k)...))")
+		}
+		switch ty := types.ExprString(mk.Args[0]); ty {
+		case "[]byte", "[]int64":
+		default:
+			w.fail(x, "append of make of %s", ty)
+		}
+		k := t.fresh("ak")
+		cur, _ := t.lookup(target.Name)
+		sp, _ := t.lookup(target.Name + "_spare")
+		var b bytes.Buffer
+		fmt.Fprintf(&b, "let %s := %s in\n  if (%s <? 0) then Crash crash_make else\n  ", k, w.ex(mk.Args[1]), k)
+		fmt.Fprintf(&b, "let %s := (%s ++ zrepeat %s)%%list in\n  let %s := zdrop %s %s in\n  ", w.asg(x, target.Name), cur, k, w.asg(x, target.Name+"_spare"), k, sp)
+		return b.String() + next()
+	}
 	if sl, ok := x.Rhs[0].(*ast.SliceExpr); ok && x.Tok == token.ASSIGN {
 		src, ok := w.deref(sl.X).(*ast.Ident)
 		if !ok || src.Name != target.Name || sl.Low != nil || sl.High == nil || sl.Slice3 || w.goTy[target.Name+"_spare"] == "" {
@@ -1158,6 +1216,16 @@ func (w *c6w) ioLoop(fs *ast.ForStmt, rs *ast.RangeStmt, next func() string) str
 	as := map[string]bool{}
 	t.assigned(body.List, as)
 	ast.Inspect(body, func(n ast.Node) bool {
+		if asg, ok := n.(*ast.AssignStmt); ok && asg.Tok == token.ASSIGN {
+			for _, l := range asg.Lhs {
+				if id, ok := w.deref(l).(*ast.Ident); ok && w.isListVar(id.Name) {
+					as[id.Name] = true
+					if w.goTy[id.Name+"_spare"] != "" {
+						as[id.Name+"_spare"] = true
+					}
+				}
+			}
+		}
 		if u, ok := n.(*ast.UnaryExpr); ok && u.Op == token.AND {
 			if ix, ok := u.X.(*ast.IndexExpr); ok {
 				if id, ok := w.deref(ix.X).(*ast.Ident); ok {
@@ -1274,6 +1342,63 @@ func (w *c6w) ioLoop(fs *ast.ForStmt, rs *ast.RangeStmt, next func() string) str
 }
 
 // ---------------------------------------------------------------------------------------------- driver
+
+// initialisers `x := e` of locals inside the reflection-heavy functions, translated as expressions (the
+// allocation sizes of the readers): every identifier that is not a constant becomes a parameter
+type c6localSpec struct {
+	recv, name string
+	locals     []string
+}
+
+var c6Locals = []c6localSpec{
+	{"Ary", "ReadFrom", []string{"first", "more"}},
+	{"", "readBytes", []string{"first", "more"}},
+	{"BitSet", "ReadFrom", []string{"first", "more"}},
+}
+
+func c6TransLocals(fset *token.FileSet, files []*ast.File, info *types.Info, ls c6localSpec) (string, error) {
+	fd := c6FindFunc(files, ls.recv, ls.name)
+	if fd == nil || fd.Body == nil {
+		return "", fmt.Errorf("c06: function %s.%s not found", ls.recv, ls.name)
+	}
+	var b bytes.Buffer
+	for _, ln := range ls.locals {
+		var found ast.Expr
+		count := 0
+		ast.Inspect(fd.Body, func(n ast.Node) bool {
+			as, ok := n.(*ast.AssignStmt)
+			if !ok || as.Tok != token.DEFINE || len(as.Lhs) != len(as.Rhs) {
+				return true
+			}
+			for i, l := range as.Lhs {
+				if id, ok := l.(*ast.Ident); ok && id.Name == ln {
+					found = as.Rhs[i]
+					count++
+				}
+			}
+			return true
+		})
+		if count != 1 {
+			return "", fmt.Errorf("c06: %s.%s: expected exactly one `%s := ...`, found %d", ls.recv, ls.name, ln, count)
+		}
+		t := &trans{fset: fset, info: info, prefix: "packet", used: map[string]int{}, freeSet: map[string]bool{}, known: map[string]*knownFn{}, localsOK: true}
+		t.push()
+		t.slicePar, t.ctype, t.declared = map[string]bool{}, map[string]string{}, map[string]bool{}
+		t.arrSet, t.fnVars = map[string]bool{}, map[string]bool{}
+		w := &c6w{t: t, write: true, goTy: map[string]string{}, arrLen: map[string]int64{}, locTy: map[string]string{}, known: map[string]*c6callee{}, extSet: map[string]bool{}, aux: &bytes.Buffer{}}
+		body := w.ex(found)
+		var ps []string
+		for _, fv := range t.free {
+			ps = append(ps, "("+fv+" : Z)")
+		}
+		cn := ls.name
+		if ls.recv != "" {
+			cn = ls.recv + "_" + ls.name
+		}
+		fmt.Fprintf(&b, "(* net/packet, initialiser of local %s in %s *)\nDefinition packet_%s_%s %s : Z :=\n  %s.\n\n", ln, strings.TrimPrefix(ls.recv+"."+ls.name, "."), cn, ln, strings.Join(ps, " "), body)
+	}
+	return b.String(), nil
+}
 
 func c6CheckTypeDecls(files []*ast.File) error {
 	found := map[string]string{}
@@ -1476,6 +1601,13 @@ func genC06(repo string) (out string, err error) {
 		fmt.Fprintf(&b, "(* net/packet, func %s.%s *)\nDefinition %s %s :=\n  %s.\n\n", sp.recv, sp.name, cname, strings.Join(all, " "), body)
 		known[sp.recv+"."+sp.name] = &c6callee{cname: cname, kind: sp.kind, ext: append([]string{}, w.ext...)}
 	}
+	for _, ls := range c6Locals {
+		txt, e := c6TransLocals(fset, files, info, ls)
+		if e != nil {
+			return "", e
+		}
+		b.WriteString(txt)
+	}
 	sk, e := genC06Skel(fset, files)
 	if e != nil {
 		return "", e
@@ -1494,6 +1626,7 @@ type c6skelSpec struct{ recv, name, coq string }
 
 var c6Skels = []c6skelSpec{
 	{"", "readByte", "skel_readByte"},
+	{"", "readBytes", "skel_readBytes"},
 	{"PluginMessageData", "ReadFrom", "skel_PluginMessageData_ReadFrom"},
 	{"NBTField", "WriteTo", "skel_NBTField_WriteTo"},
 	{"NBTField", "ReadFrom", "skel_NBTField_ReadFrom"},
